@@ -188,69 +188,83 @@ def nextCtl (progs : Meth → Prog) (c : Ctl) (b : Bool) : Ctl :=
 
 /-! ### one transition of one thread against the shared state -/
 
-/-- the effect of the head of the stack: `(outcome, shared', thread')` where `thread'` still has the
-    old control state (`stepT` installs `nextCtl … outcome`); `none` = not enabled -/
-def effect (sh : Shared) (t : Tid) (th : Thread) : Option (Bool × Shared × Thread) :=
-  match th.ctl.stack with
-  | [] => none
+/-- what the control state asks for next -/
+inductive Head
+  | idle                 -- no frame: between two API calls
+  | finish               -- the last frame is exhausted: the API call returns
+  | pop                  -- a frame is exhausted: its caller continues
+  | runDefer (l : Lck)   -- body exhausted, a deferred unlock is pending
+  | unwind               -- panicking: the rest of the body is skipped
+  | stmt (s : Stmt)      -- an ordinary statement
+deriving Repr, Inhabited
+
+def Ctl.head (c : Ctl) : Head :=
+  match c.stack with
+  | [] => .idle
   | fr :: rest =>
     match fr.body with
     | [] =>
       match fr.defers with
-      | l :: _ => some (false, if sh.noLock l then sh else sh.setOwner l none, th)
-      | [] =>
-        match rest with
-        | _ :: _ => some (false, sh, th)
-        | [] =>   -- the API call returns
-          match th.cur with
-          | none => some (false, sh, th)
-          | some c => some (false, sh.emit (.ret t c (if th.ctl.panicking then .panicked else th.result)),
-                            { th with cur := none, result := .unit })
-    | s :: _ =>
-      if th.ctl.panicking then some (false, sh, th)
-      else
-      let x := (th.cur.map ApiCall.payload).getD 0
-      let f := (th.cur.map ApiCall.fin).getD 0
-      match s with
-      | .lock l =>
-          if sh.noLock l then some (true, sh, th)
-          else if (sh.owner l).isNone then some (true, sh.setOwner l (some t), th) else none
-      | .unlock l => some (true, if sh.noLock l then sh else sh.setOwner l none, th)
-      | .deferUnlock _ => some (true, sh, th)
-      | .tryLock l _ _ =>
-          if sh.noLock l then some (true, sh, th)
-          else if (sh.owner l).isNone then some (true, sh.setOwner l (some t), th) else some (false, sh, th)
-      | .ifLoadEq fl k _ _ => some (sh.fld fl == k, sh, th)
-      | .ifFld fl k _ _ => some (sh.fld fl == k, sh, th)
-      | .ifCas fl a b _ _ =>
-          match fl with
-          | .status => if sh.status = a then some (true, { sh with status := b }, th) else some (false, sh, th)
-          | _ => none
-      | .ifNil fl _ _ => some (sh.isNil fl, sh, th)
-      | .callDest k =>
-          if th.ctl.inside then some (true, sh.emit (.cbEnd t k x), th)
-          else some (true, sh.emit (.cbBegin t k x), th)
-      | .drop k => some (true, sh.emit (.drop t k x), th)
-      | .callSelf _ => some (true, sh, th)
-      | .setDone => some (true, { sh with done := true }, th)
-      | .swapFinalizers => some (true, { sh with finalizers := [] }, { th with taken := sh.finalizers, panics := [] })
-      | .runTaken =>
-          match th.taken with
-          | [] => some (false, sh, th)
-          | g :: gs => some (true, { sh with ran := sh.ran ++ [g] }.emit (.finRun t g),
-                             { th with taken := gs, panics := if sh.panicky.contains g then th.panics ++ [g] else th.panics })
-      | .raiseJoined =>
-          match th.panics with
-          | [] => some (false, sh, th)
-          | p :: ps => some (true, sh.emit (.raised t (p :: ps)), { th with panics := [] })
-      | .appendFinalizer => some (true, { sh with finalizers := sh.finalizers ++ [f] }.emit (.appended t f), th)
-      | .runNow => some (sh.panicky.contains f, { sh with ran := sh.ran ++ [f] }.emit (.finRun t f), th)
-      | .recv => if sh.ran.contains f then some (true, sh, th) else none
-      | .retLoad fl c k => some (true, sh, { th with result := .bool (c.eval (sh.fld fl) k) })
-      | .retFld fl => some (true, sh, { th with result := .bool (sh.fld fl == 1) })
-      | .ret => some (true, sh, th)
-      | .userCb _ => none
-      | .unknown _ => none
+      | l :: _ => .runDefer l
+      | [] => match rest with
+        | [] => .finish
+        | _ :: _ => .pop
+    | s :: _ => if c.panicking then .unwind else .stmt s
+
+/-- the effect of the head of the stack: `(outcome, shared', thread')` where `thread'` still has the
+    old control state (`stepT` installs `nextCtl … outcome`); `none` = not enabled -/
+def effect (sh : Shared) (t : Tid) (th : Thread) : Option (Bool × Shared × Thread) :=
+  let x := (th.cur.map ApiCall.payload).getD 0
+  let f := (th.cur.map ApiCall.fin).getD 0
+  match th.ctl.head with
+  | .idle => none
+  | .finish =>
+      match th.cur with
+      | none => some (false, sh, th)
+      | some c => some (false, sh.emit (.ret t c (if th.ctl.panicking then .panicked else th.result)),
+                        { th with cur := none, result := .unit })
+  | .pop => some (false, sh, th)
+  | .runDefer l => some (false, if sh.noLock l then sh else sh.setOwner l none, th)
+  | .unwind => some (false, sh, th)
+  | .stmt (.lock l) =>
+      if sh.noLock l then some (true, sh, th)
+      else if (sh.owner l).isNone then some (true, sh.setOwner l (some t), th) else none
+  | .stmt (.unlock l) => some (true, if sh.noLock l then sh else sh.setOwner l none, th)
+  | .stmt (.deferUnlock _) => some (true, sh, th)
+  | .stmt (.tryLock l _ _) =>
+      if sh.noLock l then some (true, sh, th)
+      else if (sh.owner l).isNone then some (true, sh.setOwner l (some t), th) else some (false, sh, th)
+  | .stmt (.ifLoadEq fl k _ _) => some (sh.fld fl == k, sh, th)
+  | .stmt (.ifFld fl k _ _) => some (sh.fld fl == k, sh, th)
+  | .stmt (.ifCas fl a b _ _) =>
+      match fl with
+      | .status => if sh.status = a then some (true, { sh with status := b }, th) else some (false, sh, th)
+      | _ => none
+  | .stmt (.ifNil fl _ _) => some (sh.isNil fl, sh, th)
+  | .stmt (.callDest k) =>
+      if th.ctl.inside then some (true, sh.emit (.cbEnd t k x), th)
+      else some (true, sh.emit (.cbBegin t k x), th)
+  | .stmt (.drop k) => some (true, sh.emit (.drop t k x), th)
+  | .stmt (.callSelf _) => some (true, sh, th)
+  | .stmt .setDone => some (true, { sh with done := true }, th)
+  | .stmt .swapFinalizers => some (true, { sh with finalizers := [] }, { th with taken := sh.finalizers, panics := [] })
+  | .stmt .runTaken =>
+      match th.taken with
+      | [] => some (false, sh, th)
+      | g :: gs => some (true, { sh with ran := sh.ran ++ [g] }.emit (.finRun t g),
+                         { th with taken := gs, panics := if sh.panicky.contains g then th.panics ++ [g] else th.panics })
+  | .stmt .raiseJoined =>
+      match th.panics with
+      | [] => some (false, sh, th)
+      | p :: ps => some (true, sh.emit (.raised t (p :: ps)), { th with panics := [] })
+  | .stmt .appendFinalizer => some (true, { sh with finalizers := sh.finalizers ++ [f] }.emit (.appended t f), th)
+  | .stmt .runNow => some (sh.panicky.contains f, { sh with ran := sh.ran ++ [f] }.emit (.finRun t f), th)
+  | .stmt .recv => if sh.ran.contains f then some (true, sh, th) else none
+  | .stmt (.retLoad fl c k) => some (true, sh, { th with result := .bool (c.eval (sh.fld fl) k) })
+  | .stmt (.retFld fl) => some (true, sh, { th with result := .bool (sh.fld fl == 1) })
+  | .stmt .ret => some (true, sh, th)
+  | .stmt (.userCb _) => none
+  | .stmt (.unknown _) => none
 
 def stepT (progs : Meth → Prog) (sh : Shared) (t : Tid) (th : Thread) : Option (Shared × Thread) :=
   match th.ctl.stack with
